@@ -1,69 +1,28 @@
-import Amqp.Model.Parse
-import Amqp.Model.Publish
+import Driver.Util
+import Driver.C02
+import Driver.C04
 /-
   Line-protocol driver: one operation per input line, one canonical output line per operation.
   Imports `Model/` only (no Mathlib, no proofs) so that it links as a `lean_exe`.
+  Stateless handlers are listed in `handlers`; stateful models have a field in `DState`.
 -/
 open Amqp
 
 structure DState where
   rd : RdState := {}
 
-def showFrame (f : Frame) : String := s!"{f.ty}:{f.chan}:{if f.payload.isEmpty then "-" else toHex f.payload}"
-
-def showFrames (fs : List Frame) : String :=
-  if fs.isEmpty then "-" else ",".intercalate (fs.map showFrame)
-
-def hexOrDash (b : Bytes) : String := if b.isEmpty then "-" else toHex b
-
-def cksum (b : Bytes) : Nat := b.foldl (fun h x => (h * 31 + x.toNat) % 4294967296) 7
-
-def showSlice (p : Bytes) : String :=
-  if p.length ≤ 64 then hexOrDash p else s!"#{p.length}:{cksum p}"
-
-def parseInt (s : String) : Option Int :=
-  if s.startsWith "-" then (s.drop 1).toNat?.map (fun n => -(n : Int)) else s.toNat?.map (fun n => (n : Int))
+def handlers : List Handler := [
+  Driver.C04.handle
+]
 
 def step (st : DState) (line : String) : DState × String :=
-  match line.trimAscii.toString.splitOn " " with
-  | ["c02.reset"] => ({ st with rd := {} }, "ok")
-  | ["c02.parse1", h] =>
-    match ofHex h with
+  let args := line.trimAscii.toString.splitOn " "
+  match Driver.C02.step st.rd args with
+  | some (rd, o) => ({ st with rd := rd }, o)
+  | none =>
+    match handlers.findSome? (fun h => h args) with
+    | some o => (st, o)
     | none => (st, "bad-op")
-    | some d =>
-      match handleFrame d with
-      | none => (st, "none")
-      | some (f, rest) => (st, s!"some {d.length - rest.length} {showFrame f}")
-  | ["c02.feed", h] =>
-    match ofHex h with
-    | none => (st, "bad-op")
-    | some d =>
-      let before := st.rd.out.length
-      let rd := feed st.rd d
-      ({ st with rd := rd }, s!"out={showFrames (rd.out.drop before)} buf={hexOrDash rd.buf}")
-  | ["c04.split", f, h] =>
-    match parseInt f, ofHex h with
-    | some maxF, some b =>
-      let ps := splitBody maxF b
-      (st, s!"n={ps.length} " ++ (if ps.isEmpty then "-" else ",".intercalate (ps.map showSlice)))
-    | _, _ => (st, "bad-op")
-  | ["c04.splitrep", f, n, byte] =>   -- body = `n` copies of one byte (large bodies without large lines)
-    match parseInt f, n.toNat?, byte.toNat? with
-    | some maxF, some n, some x =>
-      let ps := splitBody maxF (List.replicate n (UInt8.ofNat x))
-      (st, s!"n={ps.length} " ++ (if ps.isEmpty then "-" else ",".intercalate (ps.map showSlice)))
-    | _, _, _ => (st, "bad-op")
-  | ["c04.negotiate", v] =>
-    match parseInt v with
-    | some srv => (st, s!"stored={negotiatedFrameMax srv} sent={announcedFrameMax srv} channel={channelMaxF srv}")
-    | none => (st, "bad-op")
-  | ["c04.utf8", cps] =>   -- comma-separated code points -> UTF-8 bytes of the text
-    let cs := (cps.splitOn ",").filterMap (fun t => t.toNat?)
-    let str := String.ofList (cs.map Char.ofNat)
-    match encodeBody utf8 (.text str) with
-    | some b => (st, hexOrDash b)
-    | none => (st, "encode-error")
-  | _ => (st, "bad-op")
 
 partial def loop (h : IO.FS.Stream) (out : IO.FS.Stream) (st : DState) : IO Unit := do
   let line ← h.getLine
